@@ -147,7 +147,23 @@ fn build(label: &str, enc: [Enc; 3], vault0: u64) -> Wd {
         O::SetEmissions { index: 0, rate: RATE_1, v2: false },
         O::Base(Op::Clock(100)),
     ];
+    // all three rewards emitting at different rates, a tick initialised after growth accrued and touched again afterwards (the
+    // third reward slot of ticks and positions is only exercised when index 2 is live and its growth differs from index 1)
+    let three = vec![
+        O::InitReward { index: 0, v2: false },
+        O::InitReward { index: 1, v2: true },
+        O::InitReward { index: 2, v2: true },
+        O::Base(Op::Inc { pos: 2, liq: stdworlds::BIG, v2: true }),
+        O::Base(Op::Inc { pos: 0, liq: stdworlds::BIG, v2: false }),
+        O::SetEmissions { index: 0, rate: RATE_1, v2: false },
+        O::SetEmissions { index: 1, rate: RATE_BIG, v2: true },
+        O::SetEmissions { index: 2, rate: RATE_SMALL * 3, v2: true },
+        O::Base(Op::Clock(50)),
+        O::Base(Op::Inc { pos: 1, liq: stdworlds::BIG / 3, v2: true }),
+        O::Base(Op::Clock(7)),
+    ];
     let prefixes = vec![
+        ("three-rewards".to_string(), l.clone(), three),
         ("empty-emitting".to_string(), l.clone(), empty_emitting),
         ("late-lower-tick".to_string(), l.clone(), late_lower),
         ("funded-no-reward".to_string(), l.clone(), fund),
@@ -182,6 +198,7 @@ fn alphabet() -> Vec<O> {
     a.push(O::Collect { pos: 0, index: 0, v2: false });
     a.push(O::Collect { pos: 1, index: 0, v2: true });
     a.push(O::Collect { pos: 2, index: 1, v2: true });
+    a.push(O::Collect { pos: 1, index: 2, v2: true });
     a.push(O::SetEmissions { index: 0, rate: 0, v2: false });
     a.push(O::SetEmissions { index: 0, rate: RATE_1, v2: true });
     a.push(O::SetEmissions { index: 0, rate: RATE_HUGE, v2: false }); // must be refused: no vault holds a day of it
